@@ -132,4 +132,23 @@ open DiplomatModel.JsStr in
 example : str16Len [0xE9, 0xD83D] = 2 ∧ encode16 [0xE9, 0xD83D] = [0xE9, 0x00, 0x3D, 0xD8]
     ∧ decode16 (encode16 [0xE9, 0xD83D]) = [0xE9, 0xD83D] := by decide
 
+open DiplomatModel.JsStr in
+/-- **Size bounds of the UTF-8 view**: between one and three bytes per UTF-16 unit, for every JS string — the
+    buffer `str8` allocates is never smaller than `string.length` and never larger than `3 * string.length`. -/
+theorem js_str8_length_bounds (us : List Nat) (h : ∀ u ∈ us, u < 0x10000) :
+    us.length ≤ str8Len us ∧ str8Len us ≤ 3 * us.length := by
+  unfold str8Len
+  fun_induction codePoints us with
+  | case1 => simp
+  | case2 u =>
+    have := cpLen_pos u; have := cpLen_le3 u (h u (by simp)); simp; omega
+  | case3 u v rest hc ih =>
+    have : cpLen (pairValue u v) = 4 := by unfold cpLen pairValue; split <;> (try split) <;> (try split) <;> omega
+    have := ih (fun w hw => h w (by simp [hw]))
+    simp only [List.map_cons, List.sum_cons, List.length_cons]; omega
+  | case4 u v rest hc ih =>
+    have := cpLen_pos u; have := cpLen_le3 u (h u (by simp))
+    have := ih (fun w hw => h w (List.mem_cons_of_mem _ hw))
+    simp only [List.map_cons, List.sum_cons, List.length_cons] at *; omega
+
 end DiplomatModel.Props.C16
